@@ -15,6 +15,8 @@ def run(chk):
     for p in bad[:5]:
         chk.violation("c01:reject:seed%d" % p["seed"], "a generated well-formed source was rejected by the compiler: %s\n%s"
                       % (p["run"].get("errors"), p["files"]), {"files": p["files"], "main": p["main"], "errors": p["run"].get("errors")})
+    ncli = sem.run_cli(chk, progs[::max(1, len(progs) // (400 if chk.thorough else 60))], limit=400 if chk.thorough else 60)
+    chk.cov["programs_run_through_bin_theo"] = ncli
     acc, nev = sem.validate(chk, progs)
     # model leg: the ideal machine (no real VM) on the real bytecode of the same sources simulates TheoSem
     nref = sem.refine(chk, th, progs[::max(3, len(progs) // 6000)])
